@@ -253,7 +253,8 @@ impl Monitor for C09 {
         let ttags = train.tags();
         let vtags = val.tags();
         // train A for e epochs; returns net, result, events
-        let probes: Vec<&Tensor> = val.x_tensors.iter().take(6).chain(train.x_tensors.iter().take(6)).collect();
+        // (every validation and training input: a diverging run may overflow on one input only)
+        let probes: Vec<&Tensor> = val.x_tensors.iter().chain(train.x_tensors.iter()).collect();
         let train_a = |e: usize| -> Result<(Network, (Vec<f32>, Vec<f32>, Vec<f32>), Vec<Event>), String> {
             let mut a = mk(&cfg, &params)?;
             let (r, ev) = in_cached_pool(3, || {
